@@ -50,7 +50,7 @@ Theorem C19_installed_table : forall r,
                 | RFunc => IPair FPlain | RClassmethod => IPair FCM | RStaticmethod => IPair FSM
                 | RAsynqFn => IAsynq
                 | RBound | RSlotsObj => IWrapper
-                | RCallableObj | RNcObj => IObj
+                | RCallableObj | RNcObj | RMockObj | RClassObj => IObj
                 | RNonCallable | RNcNonCallable => IPlain
                 | RNcSlots => ISlots RefAttr
                 | RNcFrozen | RNcType => ISlots RefType
@@ -80,7 +80,7 @@ Print Assumptions C19_restored_prog.
 (* a successful activation installs the replacement; a failed one leaves everything as it was *)
 Theorem C19_enter_installs : forall w st p st' sp,
   enter w st p = (st', RDone) -> specs w p = Some sp ->
-  own st' (ptarget sp) = Some (new_obj p (prk sp) (gen st p)) /\ gen st' p = gen st p + 1.
+  own st' (ptarget sp) = Some (new_obj p sp (gen st p)) /\ gen st' p = gen st p + 1.
 Proof. exact enter_installs. Qed.
 Print Assumptions C19_enter_installs.
 
@@ -130,7 +130,8 @@ Print Assumptions C19_reactivation_same.
 Theorem C19_probe_reaches_current : forall w st t args cur cs,
   probe w st t args = RProbe cur cs ->
   cur = current w st t /\
-  forall c, In c cs -> c = CNotCallable \/ exists o recv b, cur = Some o /\ c = CReached o recv b.
+  forall c, In c cs -> c = CNotCallable \/ c = CDetached
+                       \/ exists o recv b, cur = Some o /\ c = CReached (body_of w o) recv b.
 Proof. exact probe_reaches_current. Qed.
 Print Assumptions C19_probe_reaches_current.
 
@@ -142,3 +143,72 @@ Theorem C19_original_reached :
     = Reached (prefix A self_ cls_ (orig_ftype tk) (access_of tk own_present) ++ args).
 Proof. exact original_reached. Qed.
 Print Assumptions C19_original_reached.
+
+(* ---- one replacement object shared by several patches (overlapping lifetimes) ---- *)
+
+(* nothing ever takes .asynq/.async/.asyncio off an object again: over any world and ANY op list
+   (ends of other patches, stopall, malformed orders included) an attached object stays attached *)
+Theorem C19_attach_persists : forall w ops st o,
+  attached st o = true -> attached (exec w st ops) o = true.
+Proof. exact attach_persists. Qed.
+Print Assumptions C19_attach_persists.
+
+Theorem C19_enter_attaches : forall w st p st' sp,
+  enter w st p = (st', RDone) -> specs w p = Some sp -> inst_callable (installed (prk sp)) = true ->
+  attached st' (new_obj p sp (gen st p)) = true.
+Proof. exact enter_attaches. Qed.
+Print Assumptions C19_enter_attaches.
+
+(* the same caller-supplied object given to two patchers: installed as is (callable object, Mock
+   instance, class, @asynq function, non-callable) it is ONE object in both slots; wrapped by
+   _maybe_wrap_new (function, bound method, attribute-refusing callable) every patcher has its own
+   wrapper object, and the code that runs is the shared object's *)
+Theorem C19_shared_same_object : forall p q sp sq g h,
+  per_activation (prk sp) = false -> given_as_is (prk sp) = true ->
+  prk sq = prk sp -> pshare sq = pshare sp ->
+  new_obj p sp g = new_obj q sq h.
+Proof. exact shared_same_object. Qed.
+Print Assumptions C19_shared_same_object.
+
+Theorem C19_shared_wrapped_distinct : forall p q sp sq g h,
+  per_activation (prk sp) = false -> given_as_is (prk sp) = false -> prk sq = prk sp -> p <> q ->
+  new_obj p sp g <> new_obj q sq h.
+Proof. exact shared_wrapped_distinct. Qed.
+Print Assumptions C19_shared_wrapped_distinct.
+
+Theorem C19_shared_body : forall w p sp g,
+  specs w p = Some sp -> per_activation (prk sp) = false ->
+  (given_as_is (prk sp) = true -> exists so, specs w (pshare sp) = Some so /\ per_activation (prk so) = false
+                                             /\ pshare so = pshare sp) ->
+  body_of w (new_obj p sp g) = ONew (pshare sp) 0.
+Proof. exact shared_body. Qed.
+Print Assumptions C19_shared_body.
+
+(* The surviving patch.  p is activated with a callable replacement; then ANY op list runs (other
+   patches - sharing p's replacement object or not - are activated and ended, in any order);
+   whenever the target then holds p's object, a probe yields four results, none of them is
+   "attribute missing", each is the code of p's replacement with the behaviour of p's replacement
+   (or, for a classmethod object fetched without binding, not callable by any convention);
+   and for the (target kind, replacement kind) pairs of the statement all four are the same
+   `CReached` with the same received arguments. *)
+Theorem C19_survivor_reached : forall w st p sp st1 ops t args,
+  enter w st p = (st1, RDone) -> specs w p = Some sp -> inst_callable (installed (prk sp)) = true ->
+  obj_inst w (new_obj p sp (gen st p)) = Some (installed (prk sp), pbeh sp) ->
+  current w (exec w st1 ops) t = Some (new_obj p sp (gen st p)) ->
+  exists cs, probe w (exec w st1 ops) t args = RProbe (Some (new_obj p sp (gen st p))) cs /\
+    length cs = 4%nat /\
+    forall c, In c cs -> c = CNotCallable \/
+      exists recv, c = CReached (body_of w (new_obj p sp (gen st p))) recv (pbeh sp).
+Proof. exact survivor_reached. Qed.
+Print Assumptions C19_survivor_reached.
+
+Theorem C19_survivor_agree : forall w st p sp st1 ops t args tk,
+  enter w st p = (st1, RDone) -> specs w p = Some sp -> inst_callable (installed (prk sp)) = true ->
+  obj_inst w (new_obj p sp (gen st p)) = Some (installed (prk sp), pbeh sp) ->
+  current w (exec w st1 ops) t = Some (new_obj p sp (gen st p)) ->
+  tkinds w t = tk -> compat tk (prk sp) = true ->
+  exists recv, probe w (exec w st1 ops) t args =
+    RProbe (Some (new_obj p sp (gen st p)))
+           (map (fun _ => CReached (body_of w (new_obj p sp (gen st p))) recv (pbeh sp)) all_convs).
+Proof. exact survivor_agree. Qed.
+Print Assumptions C19_survivor_agree.
